@@ -381,6 +381,43 @@ impl World {
         tape::range("srv:think", self.cluster.think_min, self.cluster.think_max)
     }
 
+    /// Encodes one server frame, applying the armed in-flight damage (C08) if
+    /// this is the targeted frame. Returns (bytes, close_after).
+    pub fn encode_frame(
+        &mut self,
+        conn: ConnId,
+        stream: i16,
+        opcode: u8,
+        body: &[u8],
+        env: &Envelope,
+    ) -> (Vec<u8>, bool) {
+        let compression = self.conns[conn].cql.compression;
+        let idx = self.frames_out;
+        self.frames_out += 1;
+        let hit = matches!(&self.mutation, Some((target, _)) if *target == idx);
+        if !hit {
+            let bytes = wire::encode_response(stream, opcode, body, env, compression);
+            if self.frame_lens.len() < 4096 {
+                self.frame_lens.push(bytes.len());
+            }
+            return (bytes, false);
+        }
+        let (_, m) = self.mutation.take().unwrap();
+        let body2 = m.apply_body(body);
+        let clean = wire::encode_response(stream, opcode, &body2, env, compression);
+        let (bytes, fin) = m.apply_wire(&clean);
+        self.fault(Fault::Corrupt);
+        self.mutation_fired = Some(format!(
+            "frame#{idx} conn={conn} stream={stream} opcode={opcode:#x} len={} compressed={} {}",
+            clean.len(),
+            compression.is_some(),
+            m.describe()
+        ));
+        self.log(&format!("mutated {}", self.mutation_fired.clone().unwrap()));
+        crate::runner::note(&format!("mutated {}", self.mutation_fired.clone().unwrap()));
+        (bytes, fin)
+    }
+
     /// Schedules a response frame on `conn` after `delay`.
     pub fn respond(
         &mut self,
@@ -391,9 +428,7 @@ impl World {
         env: &Envelope,
         delay: u64,
     ) {
-        let compression = self.conns[conn].cql.compression;
-        // SUPPORTED/READY etc. before STARTUP are never compressed.
-        let bytes = wire::encode_response(stream, opcode, body, env, compression);
+        let (bytes, fin) = self.encode_frame(conn, stream, opcode, body, env);
         self.schedule(
             delay,
             Ev::SrvSend {
@@ -402,6 +437,9 @@ impl World {
                 stream: Some(stream),
             },
         );
+        if fin {
+            self.schedule(delay, Ev::SrvClose { conn, rst: false });
+        }
     }
 
     pub fn respond_error(&mut self, conn: ConnId, stream: i16, code: i32, msg: &str, extra: &[u8], delay: u64) {
@@ -418,9 +456,11 @@ impl World {
             .map(|c| c.id)
             .collect();
         for conn in targets {
-            let compression = self.conns[conn].cql.compression;
-            let bytes = wire::encode_response(-1, OP_EVENT, &body, &Envelope::default(), compression);
+            let (bytes, fin) = self.encode_frame(conn, -1, OP_EVENT, &body, &Envelope::default());
             let d = self.think();
+            if fin {
+                self.schedule(d, Ev::SrvClose { conn, rst: false });
+            }
             self.schedule(
                 d,
                 Ev::SrvSend {
